@@ -134,4 +134,25 @@ example : ∀ op ∈ demo, op.RawClosed := by
 example : (run 10 5 {} demo).1.tracked = some (0, 3) := by decide +kernel
 example : (termAfter 10 5 {} (run 10 5 {} demo).2).cx = 0 ∧ (termAfter 10 5 {} (run 10 5 {} demo).2).cy = 3 := by decide +kernel
 
+/-! ### the terminal hypothesis cannot be dropped -/
+
+/-- a full line of text, a cursor-position query, a move by nothing -/
+def clampHistory : List Op :=
+  [.reset false, .write (List.replicate 5 120), .getCursorPosition, .moveCursor none none none none]
+
+/-- **`cfg.cprClamps = false` is needed.**  On a 5 × 3 terminal that hides the pending-wrap state in its
+    report (xterm style, `cprClamps := true`), after a full line of text and a query the object claims column 4
+    while the terminal's cursor is in the pending-wrap state (`cx = 5`: the next character goes to the next
+    line); a terminal that reports the state (`cprClamps := false`) makes the object forget the position
+    instead.  All other hypotheses of `tracked_sound` hold for this history. -/
+theorem cpr_report_of_pending_wrap_needed :
+    (∀ op ∈ clampHistory, op.WF) ∧
+    (run 5 3 { cprClamps := true } clampHistory).1.tracked = some (4, 0) ∧
+    (termAfter 5 3 { cprClamps := true } (run 5 3 { cprClamps := true } clampHistory).2).cx = 5 ∧
+    (run 5 3 { cprClamps := false } clampHistory).1.tracked = none := by
+  refine ⟨?_, by decide +kernel, by decide +kernel, by decide +kernel⟩
+  intro op h
+  simp only [clampHistory, List.mem_cons, List.mem_nil_iff, or_false] at h
+  rcases h with h | h | h | h <;> subst h <;> trivial
+
 end Tup.C16
